@@ -138,10 +138,6 @@ def expectations : List Expect := [
   ⟨"openapi3/schema.go", "Schema.visitJSONObject", .derefRefValue, 5, .refsResolved⟩,
   ⟨"openapi3/schema.go", "Schema.visitXOFOperations", .index, 1,
      .invariant "ok = 1 ⇒ exactly one index recorded"⟩,
-  ⟨"openapi3/schema.go", "SchemaError.Error", .explicitPanic, 2,
-     -- encoder.Encode(err.Schema) cannot fail for a schema that was loaded from JSON/YAML; encoder.Encode(err.Value)
-     -- does fail for a value holding NaN/±Inf (strconv.ParseFloat, YAML) or a non-string-keyed YAML mapping
-     .knownFinding "F-C10-6"⟩,
   ⟨"openapi3/schema.go", "Types.Is", .index, 1,
      .invariant "second conjunct after len(*types) == 1 (guard is on the dereferenced slice)"⟩,
   ⟨"openapi3/server.go", "Server.MatchRawURL", .index, 1,
@@ -177,9 +173,9 @@ def expectations : List Expect := [
   ⟨"openapi3filter/req_resp_decoder.go", "parsePrimitiveCase", .derefRefValue, 1, .refsResolved⟩,
   ⟨"openapi3filter/req_resp_decoder.go", "parsePrimitiveCase", .typeAssert, 4,
      .libraryContract "strconv.ParseInt/ParseFloat/ParseBool return *strconv.NumError"⟩,
-  ⟨"openapi3filter/req_resp_decoder.go", "urlValuesDecoder.DecodeObject", .derefRefValue, 3, .refsResolved⟩,
-  ⟨"openapi3filter/req_resp_decoder.go", "urlValuesDecoder.DecodeObject", .index, 2,
-     .libraryContract "regexp.FindStringSubmatch of a pattern with one group returns two elements when it matches; url.Values entries are non-empty"⟩,
+  ⟨"openapi3filter/req_resp_decoder.go", "urlValuesDecoder.DecodeObject", .derefRefValue, 5, .refsResolved⟩,
+  ⟨"openapi3filter/req_resp_decoder.go", "urlValuesDecoder.DecodeObject", .index, 3,
+     .libraryContract "every element of regexp.FindAllStringSubmatch of a pattern with one group has two entries (m[0] the match, m[1] the group); url.Values entries are non-empty"⟩,
   ⟨"openapi3filter/req_resp_decoder.go", "urlValuesDecoder.DecodePrimitive", .derefRefValue, 2, .refsResolved⟩,
   ⟨"openapi3filter/req_resp_decoder.go", "urlValuesDecoder.parseArray", .derefRefValue, 1, .refsResolved⟩,
   ⟨"openapi3filter/req_resp_decoder.go", "urlValuesDecoder.parseValue", .derefRefValue, 7, .refsResolved⟩,
